@@ -219,8 +219,9 @@ func callableNodes(e sx.Sexp, out *[]string) {
 	}
 }
 
-// callablePair: among the operands there are two DIFFERENT Callable types (CallableType.Equals answers true for any two, their
-// keys differ): known finding C07-callable-all-equal
+// callablePair: among the operands there are two DIFFERENT Callable types (CallableType.Equals answered true for any two, their
+// keys differ): the class of the former finding C07-callable-all-equal (repaired in /repo 3d635fb / a044786; on the repaired
+// tree no failure has this class)
 func callablePair(es ...sx.Sexp) bool {
 	var ns []string
 	for _, e := range es {
@@ -253,7 +254,8 @@ var kindTypeLits = []string{
 	"(runtime x x n)", "(runtime x x78 n)", "(runtime x x79 n)", "(runtime x72756279 x n)", "(runtime x72756279 x78 n)", "(runtime x72756279 x79 n)", "(runtime x72756279 x78 x79)",
 	"(runtime x72756279 x78 x)", "(runtime x72756279 x x79)", "(runtime x72756279 x x78)", "(runtime x x x79)", "(runtime x6a617661 x78 n)", "(runtime x676f x n)",
 	"(like any x)", "(like str x)", "(like str x61)", "(like str x62)", "(like any x61)", "(like (int 1 2) x61)",
-	"callable", "(callable str)", "(callable (int 1 2))", "(callable str (int 1 2))", "(callable unit str)", "(callable str unit)",
+	"callable", "(callable)", "(callable str)", "(callable (int 1 2))", "(callable str (int 1 2))", "(callable unit str)", "(callable str unit)", "(callable unit)",
+	"(callable (var str undef))", "(callable (var undef str))",
 	"(tref x466f6f)", "(tref x426172)", "(tref x556e7265736f6c7665645265666572656e6365)", "(tref x)",
 	"semver", "(semver x312e78 (se (ge 1 0 0 x x) (lt 2 0 0 x x)))", "(semver x (se (ge 1 0 0 x x) (lt 2 0 0 x x)))", "(semver x3e3d312e302e30203c322e302e30 (se (ge 1 0 0 x x) (lt 2 0 0 x x)))",
 	"(semver x322e78 (se (ge 2 0 0 x x) (lt 3 0 0 x x)))", "(semver x312e322e33 (eq 1 2 3 x x))", "(semver x (eq 1 2 3 x x))", "(semver x312e78207c7c20332e78 (se (ge 1 0 0 x x) (lt 2 0 0 x x)) (se (ge 3 0 0 x x) (lt 4 0 0 x x)))",
@@ -304,8 +306,8 @@ func randKindType(r *rand.Rand, depth int) string {
 	case 14:
 		return "(like " + sub() + " " + sx.Str([]string{"", "a", "b", "a.b"}[r.Intn(4)]).Atom + ")"
 	case 15:
-		n := r.Intn(3)
-		if n == 0 {
+		n := r.Intn(4) - 1
+		if n < 0 {
 			return "callable"
 		}
 		s := "(callable"
